@@ -70,7 +70,12 @@ pub fn prop(id: &str) -> (ScreenProp, u64, u64) {
             (
                 ScreenProp {
                     id: "C03",
-                    opts: vec![("single-bar", single, 3), ("multi", multi, 5), ("multi-exhausted-limiter", limited, 3)],
+                    opts: vec![("single-bar", single.clone(), 3), ("multi", multi, 5), ("multi-exhausted-limiter", limited, 3), ("single-exhausted-limiter", {
+                        let mut l = single;
+                        l.hz = vec![Some(1), Some(1), Some(3)];
+                        l.exhaust = true;
+                        l
+                    }, 2)],
                     judge: any_rule(LOG_RULES),
                     check_cursor: false,
                 },
